@@ -78,32 +78,33 @@ def parse_twitter_url(url):
     if not is_twitter_url(url):
         return None
 
-    try:
-        parsed = safe_urlsplit(url)
-    except ValueError:
-        return None
-
-    path = pathsplit(parsed.path)
-
-    if path:
-        user_screen_name = normalize_screen_name(path[0])
-
-        if user_screen_name is None:
-            if len(path) == 3 and path[0] == "i" and path[1] == "lists":
-                return TwitterList(id=path[2])
+    # NOTE: a legacy `#!/path` fragment is routed by looping, not by recursing:
+    # a fragment made of nested hashbangs must not exhaust the stack
+    while True:
+        try:
+            parsed = safe_urlsplit(url)
+        except ValueError:
             return None
 
-        if len(path) == 3:
-            return TwitterTweet(user_screen_name=user_screen_name, id=path[2])
+        path = pathsplit(parsed.path)
 
-        return TwitterUser(screen_name=user_screen_name)
+        if path:
+            user_screen_name = normalize_screen_name(path[0])
 
-    if parsed.fragment.startswith("!"):
-        path = re.sub(TWITTER_FRAGMENT_ROUTING_RE, "", parsed.fragment)
+            if user_screen_name is None:
+                if len(path) == 3 and path[0] == "i" and path[1] == "lists":
+                    return TwitterList(id=path[2])
+                return None
 
-        return parse_twitter_url("twitter.com/" + path)
+            if len(path) == 3:
+                return TwitterTweet(user_screen_name=user_screen_name, id=path[2])
 
-    return None
+            return TwitterUser(screen_name=user_screen_name)
+
+        if not parsed.fragment.startswith("!"):
+            return None
+
+        url = "twitter.com/" + re.sub(TWITTER_FRAGMENT_ROUTING_RE, "", parsed.fragment)
 
 
 def extract_screen_name_from_twitter_url(url):
